@@ -1,9 +1,356 @@
-//! C19 — not implemented yet.
-use crate::util::{Args, Out};
-use serde_json::{Value, json};
+//! C19 — concurrent compilations do not interfere: K threads released on a barrier
+//! compile and run programs; each thread's diagnostics / outputs are compared with what
+//! the same job yields alone. The interner hook (H8) logs the order in which threads
+//! pass the interner lock (evidence of the interleavings actually observed) and makes
+//! threads give up the CPU after PRNG-chosen interner operations (after the unlock).
 
-pub fn meta(_args: &Args) -> Value {
-    json!({"level": "exploration", "rule": "not implemented", "floor": {"quick": 1000000, "thorough": 1000000}})
+use super::c01::{corpus_files, mutate_source};
+use super::progcase::{gen_case, input_fn};
+use super::{drive, replay_one};
+use crate::run::{Backend, BuildError, RunError, run_program};
+use crate::util::{Args, Out, Rng, catch, fnv, hooks_default};
+use mimium_lang::verif;
+use serde::{Deserialize, Serialize};
+use serde_json::{Value, json};
+use std::path::PathBuf;
+use std::sync::{Arc, Barrier};
+
+#[derive(Clone, Debug, Serialize, Deserialize)]
+pub struct Job {
+    pub src: String,
+    pub path: Option<String>,
+    pub scheduler: bool,
+    pub n: usize,
+    pub input_seed: u64,
+    pub wasm: bool,
+    pub origin: String,
 }
-pub fn run(_args: &Args, _out: &mut Out) {}
-pub fn replay(_args: &Args, _out: &mut Out, _case: &Value) {}
+
+#[derive(Clone, Debug, Serialize, Deserialize)]
+pub struct CCase {
+    pub jobs: Vec<Job>,
+    /// per thread: indices into `jobs`, run in this order
+    pub threads: Vec<Vec<usize>>,
+    /// give up the CPU after about one in `yield_one_in` interner operations (0 = never)
+    pub yield_one_in: u32,
+    pub sched_seed: u64,
+    /// repetitions of the concurrent phase (each with another yield seed)
+    pub rounds: usize,
+}
+
+/// What one job yields, rendered so that equality is what the property asks for.
+fn outcome(j: &Job) -> String {
+    let inp = input_fn(j.input_seed, true);
+    let path = j.path.as_ref().map(PathBuf::from);
+    let backend = if j.wasm { Backend::Wasm } else { Backend::Vm };
+    let r = catch(|| run_program(backend, &j.src, j.scheduler, j.n, &inp, false, path));
+    match r {
+        Err(p) => format!("panic:{}", p.sig()),
+        Ok(Ok(o)) => {
+            let bytes: Vec<u8> = o.out.iter().flat_map(|x| x.to_bits().to_le_bytes()).collect();
+            format!("ok:ch{}:n{}:{:016x}", o.channels, o.out.len(), fnv(&bytes))
+        }
+        Ok(Err(RunError::Build(BuildError::Rejected(d)))) => {
+            // the order of independent diagnostics follows hash-map iteration order, which
+            // differs per thread even without any concurrency: compare them as a multiset
+            let mut items: Vec<String> = d
+                .into_iter()
+                .map(|x| {
+                    let mut s = x.message.clone();
+                    for (a, b, p, m) in x.labels {
+                        s.push_str(&format!("[{a}..{b}@{}:{m}]", p.rsplit('/').next().unwrap_or("")));
+                    }
+                    s
+                })
+                .collect();
+            items.sort();
+            format!("rejected:{}", items.join("|"))
+        }
+        Ok(Err(RunError::Build(BuildError::BackendRefused(m)))) => format!("refused:{m}"),
+        Ok(Err(RunError::Build(BuildError::NoDsp))) => "nodsp".into(),
+        Ok(Err(RunError::Build(BuildError::Panicked(ph, p)))) => format!("panic-in-{ph}:{}", p.sig()),
+        Ok(Err(RunError::DspPanic(i, p))) => format!("dsp-panic@{i}:{}", p.sig()),
+    }
+}
+
+fn kind(o: &str) -> &str {
+    o.split(':').next().unwrap_or("")
+}
+
+pub struct Checked {
+    pub violations: Vec<(String, String)>,
+    pub jobs_compared: u64,
+    pub unstable_alone: u64,
+    pub order_hashes: Vec<String>,
+    pub handovers: u64,
+    pub ops_logged: u64,
+    pub kinds: Vec<String>,
+    pub poisoned: bool,
+    pub child_failed: bool,
+}
+
+fn interner_alive() -> bool {
+    use mimium_lang::interner::ToSymbol;
+    catch(|| "c19_probe".to_symbol()).is_ok()
+}
+
+/// Run every job alone in a fresh process (a job that kills or hangs the process alone is
+/// not this property's business and must not take the schedule down with it).
+fn alone_in_child(c: &CCase) -> Option<Vec<String>> {
+    use std::io::Write;
+    let dir = std::env::temp_dir().join(format!("mmv-c19-{}", std::process::id()));
+    let _ = std::fs::create_dir_all(&dir);
+    let cf = dir.join("case.json");
+    {
+        let mut f = std::fs::File::create(&cf).ok()?;
+        let _ = f.write_all(serde_json::to_string(c).ok()?.as_bytes());
+    }
+    let exe = std::env::current_exe().ok()?;
+    let mut child = std::process::Command::new(exe)
+        .arg("C19")
+        .arg("--alone")
+        .arg(&cf)
+        .stderr(std::process::Stdio::null())
+        .stdout(std::process::Stdio::piped())
+        .spawn()
+        .ok()?;
+    let t0 = std::time::Instant::now();
+    loop {
+        match child.try_wait() {
+            Ok(Some(_)) => break,
+            Ok(None) => {
+                if t0.elapsed().as_secs() > 40 {
+                    let _ = child.kill();
+                    let _ = child.wait();
+                    return None;
+                }
+                std::thread::sleep(std::time::Duration::from_millis(5));
+            }
+            Err(_) => return None,
+        }
+    }
+    let out = child.wait_with_output().ok()?;
+    let txt = String::from_utf8_lossy(&out.stdout);
+    let line = txt.lines().rev().find_map(|l| l.strip_prefix("ALONE "))?;
+    serde_json::from_str::<Vec<String>>(line).ok()
+}
+
+pub fn check(c: &CCase) -> Checked {
+    let mut res = Checked { violations: vec![], jobs_compared: 0, unstable_alone: 0, order_hashes: vec![], handovers: 0, ops_logged: 0, kinds: vec![], poisoned: false, child_failed: false };
+    verif::interleave_disable();
+    let Some(fresh) = alone_in_child(c) else {
+        res.child_failed = true;
+        return res;
+    };
+    // alone, twice: the reference, and whether the job is reproducible at all
+    let mut alone: Vec<Option<String>> = vec![];
+    for (ji, j) in c.jobs.iter().enumerate() {
+        let a = outcome(j);
+        let b = outcome(j);
+        if a == b && fresh.get(ji) == Some(&a) {
+            res.kinds.push(kind(&a).to_string());
+            alone.push(Some(a));
+        } else {
+            res.unstable_alone += 1;
+            alone.push(None);
+        }
+    }
+    if !interner_alive() {
+        res.poisoned = true;
+        return res;
+    }
+    let k = c.threads.len();
+    for round in 0..c.rounds.max(1) {
+        let barrier = Arc::new(Barrier::new(k));
+        verif::order_log_start();
+        let mut hs = vec![];
+        for (ti, list) in c.threads.iter().enumerate() {
+            let jobs: Vec<Job> = list.iter().map(|&i| c.jobs[i].clone()).collect();
+            let barrier = barrier.clone();
+            let seed = c.sched_seed ^ ((ti as u64 + 1) * 0x9e37_79b9_7f4a_7c15) ^ ((round as u64) << 32);
+            let one_in = c.yield_one_in;
+            hs.push(
+                std::thread::Builder::new()
+                    .stack_size(64 << 20)
+                    .spawn(move || {
+                        hooks_default();
+                        verif::interleave_configure(ti as u8 + 1, seed, one_in);
+                        barrier.wait();
+                        let r: Vec<String> = jobs.iter().map(outcome).collect();
+                        verif::interleave_disable();
+                        r
+                    })
+                    .expect("spawn"),
+            );
+        }
+        let results: Vec<Option<Vec<String>>> = hs.into_iter().map(|h| h.join().ok()).collect();
+        let order = verif::order_log_take();
+        res.ops_logged += order.len() as u64;
+        res.handovers += order.windows(2).filter(|w| w[0] != w[1]).count() as u64;
+        res.order_hashes.push(format!("{:016x}", fnv(&order[..order.len().min(2000)])));
+        for (ti, r) in results.iter().enumerate() {
+            let Some(r) = r else {
+                res.violations.push(("thread-died".into(), format!("thread {ti} of {k} terminated abnormally (round {round})")));
+                continue;
+            };
+            for (pos, got) in r.iter().enumerate() {
+                let ji = c.threads[ti][pos];
+                let Some(want) = &alone[ji] else { continue };
+                res.jobs_compared += 1;
+                if got != want {
+                    let cls = match (kind(want), kind(got)) {
+                        (a, b) if a == b && a == "ok" => "outputs-differ-from-alone".to_string(),
+                        (a, b) if a == b && a == "rejected" => "diagnostics-differ-from-alone".to_string(),
+                        (a, b) if b.starts_with("panic") || b.starts_with("dsp-panic") => format!("panic-only-when-concurrent/{a}"),
+                        (a, b) => format!("outcome-kind-differs/{a}->{b}"),
+                    };
+                    res.violations.push((
+                        cls,
+                        format!("thread {ti}/{k} job {ji} ({}) round {round}: alone = {} ; concurrent = {}", c.jobs[ji].origin, clip(want), clip(got)),
+                    ));
+                }
+            }
+        }
+        if !interner_alive() {
+            res.poisoned = true;
+            res.violations.push(("interner-poisoned-after-concurrent-phase".into(), format!("the interner mutex is poisoned after round {round}")));
+            break;
+        }
+    }
+    res.violations.sort();
+    res.violations.dedup_by(|a, b| a.0 == b.0);
+    res
+}
+
+fn clip(s: &str) -> String {
+    s.chars().take(300).collect()
+}
+
+fn exec(c: &CCase, idx: usize, out: &mut Out) -> bool {
+    let r = check(c);
+    if r.child_failed {
+        out.inconclusive(idx, "a job of this schedule kills or hangs a process even when run alone (C03/C04's business)");
+        out.count("schedules_with_a_job_that_dies_alone", 1);
+        return false;
+    }
+    out.count("jobs_compared_with_alone", r.jobs_compared);
+    out.count("jobs_not_reproducible_alone_skipped", r.unstable_alone);
+    out.count("interner_ops_logged", r.ops_logged);
+    out.count("interner_lock_handovers_between_threads", r.handovers);
+    out.count(&format!("threads:{}", c.threads.len()), 1);
+    for h in &r.order_hashes {
+        out.set("distinct_interleavings_observed", h.clone());
+    }
+    for k in &r.kinds {
+        out.count(&format!("alone_outcome:{k}"), 1);
+    }
+    for j in &c.jobs {
+        out.count(&format!("origin:{}", j.origin.split(':').next().unwrap_or("")), 1);
+    }
+    for (sig, detail) in &r.violations {
+        out.count(&format!("violations:{sig}"), 1);
+        out.violation(idx, sig, detail, &serde_json::to_value(c).unwrap());
+    }
+    if r.poisoned {
+        // the interner mutex is poisoned: this process is useless from here on. Leave the case
+        // open and exit with the harness-trouble code so that the supervisor restarts after it
+        // (a violation recorded above stays recorded).
+        if r.violations.is_empty() {
+            out.inconclusive(idx, "a job panicked inside the interner lock when run alone (C03/C04's business); worker restarts");
+        }
+        out.finish();
+        std::process::exit(3);
+    }
+    r.jobs_compared > 0 && r.handovers > 0
+}
+
+pub fn meta(args: &Args) -> Value {
+    json!({
+        "level": "exploration",
+        "rule": "each case = a schedule: K in {2,4,8,16} threads released on a barrier, each compiling and running 1-3 jobs (shipped sources incl. macros / modules / type declarations, generated programs, mutated sources with type errors; distinct and identical sources; VM and WASM; one long-running job while the others compile). Every job's outcome (rendered diagnostics with spans, or hash of all output bits, or panic signature) is first computed alone, twice (in a fresh process and twice in the worker process; jobs whose three alone outcomes differ are skipped, schedules with a job that kills a process alone are inconclusive), then compared with what the thread obtained concurrently; any difference, a thread that dies, or a poisoned interner is a violation; a schedule that never finishes is reported by the supervisor as a hang (confirmed by re-running alone). The H8 hook logs the order in which threads pass the interner lock and yields / spins after the unlock of about one in N operations (N from the case). Non-trivial = at least one comparison and at least one lock handover between threads; distinct interleavings = hash of the first 2000 lock acquisitions.",
+        "assumptions": ["'alone' = single-threaded in the same process just before the concurrent phase", "all interleavings are not reachable; the verdict is about the interleavings observed"],
+        "floor": {"quick": 40, "thorough": 1500},
+        "case_timeout_s": 240,
+        "hang_is_violation": true,
+        "crash_is_violation": true,
+        "budget": args.cases(64, 3000),
+    })
+}
+
+pub fn gen_ccase(args: &Args, rng: &mut Rng, files: &[PathBuf]) -> CCase {
+    let k = *rng.pick(&[2usize, 4, 4, 8, 8, 16]);
+    let mut jobs: Vec<Job> = vec![];
+    let njobs = 1 + rng.below(k.min(6));
+    for _ in 0..njobs {
+        let pick = rng.below(10);
+        let job = if pick < 5 && !files.is_empty() {
+            // shipped source (possibly mutated: type errors, other constants)
+            let mut tries = 0;
+            loop {
+                let f = &files[rng.below(files.len())];
+                let src = std::fs::read_to_string(f).unwrap_or_default();
+                tries += 1;
+                let bad = ["Sampler", "sampler", "midi", "loadwav", "gen_sampler", "Slider", "Probe"].iter().any(|b| src.contains(b));
+                if bad && tries < 20 {
+                    continue;
+                }
+                let mutate = rng.chance(1, 3);
+                let name = f.file_name().map(|x| x.to_string_lossy().to_string()).unwrap_or_default();
+                break Job {
+                    src: if mutate { mutate_source(&src, rng) } else { src },
+                    path: Some(f.to_string_lossy().to_string()),
+                    scheduler: true,
+                    n: 64,
+                    input_seed: rng.next(),
+                    wasm: rng.chance(1, 4),
+                    origin: format!("{}:{name}", if mutate { "mutant" } else { "corpus" }),
+                };
+            }
+        } else if pick < 8 {
+            let g = gen_case(args, rng, true);
+            Job { src: g.src, path: None, scheduler: false, n: 64, input_seed: g.input_seed, wasm: rng.chance(1, 4), origin: "generated".into() }
+        } else if pick == 8 {
+            // ill-typed / syntactically broken text: diagnostics must not be contaminated
+            let g = gen_case(args, rng, true);
+            let mut s = g.src;
+            let cut = rng.below(s.len().max(1));
+            let cut = (0..=cut).rev().find(|&i| s.is_char_boundary(i)).unwrap_or(0);
+            if rng.chance(1, 2) {
+                s.truncate(cut);
+            } else {
+                s.insert_str(cut, " \"str\" + ");
+            }
+            Job { src: s, path: None, scheduler: false, n: 8, input_seed: 1, wasm: false, origin: "broken".into() }
+        } else {
+            // long-running machine while the others compile
+            let g = gen_case(args, rng, true);
+            Job { src: g.src, path: None, scheduler: false, n: 4096, input_seed: g.input_seed, wasm: false, origin: "long-run".into() }
+        };
+        jobs.push(job);
+    }
+    let identical = rng.chance(1, 3);
+    let threads: Vec<Vec<usize>> = (0..k)
+        .map(|t| {
+            let m = 1 + rng.below(3);
+            (0..m).map(|_| if identical { 0 } else if rng.chance(1, 2) { t % jobs.len() } else { rng.below(jobs.len()) }).collect()
+        })
+        .collect();
+    CCase { jobs, threads, yield_one_in: *rng.pick(&[0u32, 1, 2, 8, 64, 512]), sched_seed: rng.next(), rounds: if args.thorough() { 3 } else { 2 } }
+}
+
+pub fn run(args: &Args, out: &mut Out) {
+    if let Some(f) = args.extra.get("alone") {
+        let c: CCase = serde_json::from_str(&std::fs::read_to_string(f).expect("case file")).expect("case json");
+        hooks_default();
+        let r: Vec<String> = c.jobs.iter().map(outcome).collect();
+        println!("\nALONE {}", serde_json::to_string(&r).unwrap());
+        std::process::exit(0);
+    }
+    let files = corpus_files(&args.repo);
+    let n = args.cases(64, 3000);
+    drive(args, out, n, |_idx, rng| Some(gen_ccase(args, rng, &files)), exec);
+}
+
+pub fn replay(_args: &Args, out: &mut Out, case: &Value) {
+    replay_one::<CCase>(out, case, exec);
+}
